@@ -91,6 +91,7 @@ impl Obs {
             "ok": self.ok, "out": self.out,
             "errs": self.errs.iter().map(|e| e.to_json()).collect::<Vec<_>>(),
             "panic": self.panic.is_some(), "insp": self.insp,
+            "leaked": self.live_with_result - self.tracks_in_output,
             "obs": self.events.iter().map(|e| json!([e.id, e.cur, e.insp, e.ctx.to_json()])).collect::<Vec<_>>(),
         })
     }
